@@ -1,4 +1,5 @@
 import Cgm.Lemmas.AuditCmd
 import Cgm.E2E.C11
 import Cgm.E2E.C11h
+import Cgm.E2E.C11g
 #audit_namespace Cg.E2E.C11
